@@ -294,7 +294,17 @@ func c192(c *an.Ctx, p *an.Prog) {
 				continue
 			}
 			nrecv++
-			if o.Fn != run || !o.InSelect || !o.Blocking {
+			inRun := o.Fn == run
+			if !inRun && an.Inlinable(o.Fn) {
+				// a helper of the loop, interpreted inside it
+				inRun = true
+				for _, r := range an.InlineRoots(o.Fn) {
+					if r != run {
+						inRun = false
+					}
+				}
+			}
+			if !inRun || !o.InSelect || !o.Blocking {
 				badr = append(badr, fmt.Sprintf("notification consumed in %s at %s outside the hooks loop's blocking select (it would never be counted in pending)", fnKey(o.Fn), p.InstrPos(o.In)))
 			}
 		}
